@@ -160,3 +160,35 @@ def enclosing_function(node):
             names.append(getattr(n, 'name', '<lambda>'))
         n = getattr(n, '_parent', None)
     return '.'.join(reversed(names)) or '<module>'
+
+
+
+class Budget:
+    """CPU-time budget of one analysis step (SIGPROF; independent of the
+    evaluator's own watchdog): when it is used up the step ends with an
+    AnalysisError, i.e. undecided - never a hang."""
+
+    def __init__(self, seconds, what):
+        self.seconds, self.what = seconds, what
+
+    def __enter__(self):
+        import signal
+        import threading
+        self.active = threading.current_thread() is threading.main_thread()
+        if not self.active:
+            return self
+
+        def fire(signum, frame):
+            raise AnalysisError('%s did not finish within %d s of CPU time'
+                                % (self.what, self.seconds))
+        self.old = signal.signal(signal.SIGPROF, fire)
+        # fires again in case the first one was swallowed somewhere
+        signal.setitimer(signal.ITIMER_PROF, self.seconds, 2)
+        return self
+
+    def __exit__(self, *exc):
+        if self.active:
+            import signal
+            signal.setitimer(signal.ITIMER_PROF, 0)
+            signal.signal(signal.SIGPROF, self.old)
+        return False
